@@ -15,7 +15,7 @@ RULE = (
     "group structures: 1-3 county groups over the state patterns (A), (A,A), (A,B), (A,A,A), (A,A,B), each with a calibration-unit count from "
     "{0,1,9,10,11} (quick: {0,9,10} for three groups) and outstanding units present/absent (at least one group has them), plus a filler group; the "
     "generator computes which reporting positions the seeded shuffle sends to calibration and assigns groups to positions to realise the counts; one real "
-    "gaussian get_estimates per structure (and for six structures with the scale parameter beta in {2, 0.5}, and once more with turnout requested after another estimand on the same model object) with aggregates [postal_code, county_fips] and alphas {0.7, 0.9}. Oracle per group with outstanding units: exactly "
+    "gaussian get_estimates per structure (and for six structures with the scale parameter beta in {2, 0.5}, once more with turnout requested after another estimand on the same model object, and once with the calibration data saved) with aggregates [postal_code, county_fips] and alphas {0.7, 0.9}. Oracle per group with outstanding units: exactly "
     "one finite interval; calibration set chosen by the statement's rule (own if >= min(10, n_cal), else state if that has >= threshold, else all); bounds "
     "= summed unadjusted unit bounds -/+ normal quantile at (3+alpha)/4 of (mu*sum w, sigma*sqrt(sum w^2 + inflate*(sum w)^2)), floored at partial counts, "
     "plus counted votes, rounded (+-1 vote). non-trivial = some group falls back to its parent"
@@ -52,6 +52,8 @@ def cases(tier, seed):
         # the same model object serves another estimand first: the turnout intervals (checked against the reference above)
         # must come out the same when turnout is the second estimand of the request
         out.append({"pattern": list(pat), "counts": list(cs), "outstanding": [True] * len(pat), "seed": seed, "after_other_estimand": True})
+        # the caller also asks for the calibration data to be saved (written to the object-store seam): same intervals
+        out.append({"pattern": list(pat), "counts": list(cs), "outstanding": [True] * len(pat), "seed": seed, "save_conformalization": True})
     # the classification table of two states whose classes cross: (A, r) and (B, u) have their own model, (A, u) and (B, r)
     # are small and still have outstanding units - group keys have to be matched as pairs, not column by column
     for cs in ((10, 1, 10, 1), (11, 0, 10, 9), (10, 9, 11, 1)):
@@ -177,6 +179,9 @@ def evaluate(case):
     cfg = E.make_cfg(pi_method="gaussian", estimands=["turnout"], alphas=alphas, aggregates=["postal_code", "county_fips", "unit"], features=[], model_parameters={"beta": beta} if beta != 1 else {})
     if beta != 1:
         cov["non_default_beta_runs"] += 1
+    if case.get("save_conformalization"):
+        cfg["save_output"] = ["conformalization"]
+        cov["runs_saving_conformalization"] += 1
     if case.get("silent_state"):
         cov["silent_state_structures"] += 1
     res = E.run_estimates(units, cfg, keep_client=True)
@@ -285,4 +290,4 @@ def evaluate(case):
     return {"violations": V, "cov": dict(cov), "outcome": sha({k: v["rows"] for k, v in res["ok"].items() if k != "unit_data"})[:16], "nontrivial": fallback}
 
 
-REQUIRED_COUNTERS = {"group_intervals_recomputed": 500, "county_fips_uses_own": 50, "county_fips_uses_state": 50, "county_fips_uses_all": 50, "postal_code_uses_own": 50, "postal_code_uses_all": 20, "non_default_beta_runs": 10, "intervals_compared_as_second_estimand": 10, "silent_state_structures": 7, "crossed_classification_structures": 3}
+REQUIRED_COUNTERS = {"group_intervals_recomputed": 500, "county_fips_uses_own": 50, "county_fips_uses_state": 50, "county_fips_uses_all": 50, "postal_code_uses_own": 50, "postal_code_uses_all": 20, "non_default_beta_runs": 10, "runs_saving_conformalization": 6, "intervals_compared_as_second_estimand": 10, "silent_state_structures": 7, "crossed_classification_structures": 3}
